@@ -3,6 +3,7 @@ package main
 // Harness vocabulary (body-less functions in the symbolic overlay).
 
 import (
+	"strings"
 	"fmt"
 	"go/types"
 
@@ -279,4 +280,38 @@ func init() {
 	}
 	regVerif("verifNondetKey", narrow)
 	regVerif("verifNondetVal", narrow)
+}
+
+func init() {
+	// verifErrHas(err, s): does the error chain built by fmt.Errorf carry the format prefix s?
+	// (messages are opaque in the engine; the format strings and %w chain are kept)
+	regVerif("verifErrHas", func(fr *frame, a []value) value {
+		in := fr.in
+		want := strArg(a[1])
+		e := a[0].(iface)
+		for depth := 0; e.t != nil && depth < 20; depth++ {
+			p, ok := e.v.(*value)
+			if !ok || p == nil {
+				break
+			}
+			s, ok := (*p).(structure)
+			if !ok || len(s) == 0 {
+				break
+			}
+			if m, ok := s[0].(Str); ok {
+				if c, ok := m.concrete(); ok && strings.Contains(c, want) {
+					return in.tc.tTrue
+				}
+			}
+			if len(s) < 2 {
+				break
+			}
+			next, ok := s[1].(iface)
+			if !ok {
+				break
+			}
+			e = next
+		}
+		return in.tc.tFalse
+	})
 }
